@@ -7,6 +7,7 @@ import (
 	"io/fs"
 	"path"
 	"path/filepath"
+	"strconv"
 
 	"github.com/pojntfx/stfs/internal/converters"
 	"github.com/pojntfx/stfs/internal/records"
@@ -130,8 +131,19 @@ func Fetch(
 			return err
 		}
 
-		if _, err := io.Copy(dstFile, verifier); err != nil {
+		written, err := io.Copy(dstFile, verifier)
+		if err != nil {
 			return err
+		}
+
+		// A record that has been cut short (i.e. the tape ends within it) must not pass as a shorter file; not every
+		// decompressor reports a truncated or empty stream as an error
+		if hdr.PAXRecords != nil {
+			if uncompressedSize, ok := hdr.PAXRecords[records.STFSRecordUncompressedSize]; ok {
+				if size, err := strconv.ParseInt(uncompressedSize, 10, 64); err == nil && size != written {
+					return io.ErrUnexpectedEOF
+				}
+			}
 		}
 
 		if err := verify(); err != nil {
